@@ -67,6 +67,8 @@ type runner struct {
 	polluted bool
 	failed   bool
 
+	reported map[string]bool // deviation:order already reported as accepted: not delivered again
+
 	blocks   int
 	byOrder  [3]int
 	mutants  int
@@ -172,7 +174,7 @@ func (r *runner) grind(b *types.WorkObject, wantOrder, maxSeals int) (bool, erro
 	nonce := r.rng.Uint64()
 	seals := 0
 	zc := r.n.Zone().Core
-	for attempts := 0; attempts < 400_000_000; attempts++ {
+	for attempts := 0; attempts < 50_000_000; attempts++ {
 		nonce++
 		binary.BigEndian.PutUint64(buf[64:], nonce)
 		sum := blake3.Sum256(buf[:])
@@ -403,10 +405,16 @@ func (r *runner) deliver(o int, views [3]*types.WorkObject) (err error, panicked
 	return err, ""
 }
 
-// tryMutant returns false when the net must not be used any more.
+// tryMutant builds, seals and delivers one mutant; r.polluted is set when it
+// was accepted (the net must not be used any more).
 func (r *runner) tryMutant(d deviation, mined *hnet.Mined, e *devEnv, triage bool) {
 	m := r.m
 	o := mined.Order
+	if r.reported[fmt.Sprintf("%s:order%d", d.name(), o)] {
+		// already reported on this run; delivering it again would only end
+		// another net before the remaining deviations are tried
+		return
+	}
 	var views [3]*types.WorkObject
 	var origV, mutV string
 	r.rng.Read(e.rnd[:])
@@ -420,7 +428,7 @@ func (r *runner) tryMutant(d deviation, mined *hnet.Mined, e *devEnv, triage boo
 		}
 		views[lvl].WorkObjectHeader().SetHeaderHash(views[lvl].Header().Hash())
 	}
-	ok, err := r.grind(views[2], o, 4000)
+	ok, err := r.grind(views[2], o, 600)
 	if err != nil {
 		// e.g. difficulty-1 == 0: cannot be sealed at all
 		m.Trivial()
@@ -492,6 +500,7 @@ func (r *runner) tryMutant(d deviation, mined *hnet.Mined, e *devEnv, triage boo
 		return
 	}
 	m.Eval("dev:"+tag+":ACCEPTED", key)
+	r.reported[tag] = true
 	m.Violation("deviation-accepted:"+tag,
 		fmt.Sprintf("a valid order-%d block whose %s was changed (%s: %s -> %s), re-sealed, was accepted by Append at the %s level", o, d.field, d.dir, origV, mutV, ctxName[o]),
 		witness())
@@ -564,7 +573,12 @@ func (r *runner) terminalProbes() {
 	if loc == nil {
 		return
 	}
-	for _, want := range []int{common.REGION_CTX, common.PRIME_CTX} {
+	wants := []int{common.REGION_CTX, common.PRIME_CTX}
+	if r.netIdx%2 == 0 {
+		// an accepted probe ends the net: alternate which order goes first
+		wants = []int{common.PRIME_CTX, common.REGION_CTX}
+	}
+	for _, want := range wants {
 		if r.polluted || r.failed {
 			return
 		}
@@ -597,7 +611,7 @@ func TestC09(t *testing.T) {
 		"a deviation is applied only at orders whose verification contexts derive the field from the parent; fields that are unconstrained at an order are not probed there",
 		"share-difficulty fields before the fork are neither sealed nor wire-encoded: those mutants are delivered in memory",
 		"location {0,1} at region/prime order is recorded for triage only")
-	r := &runner{t: t, m: m, rng: m.Rand("c09"), devs: deviations()}
+	r := &runner{t: t, m: m, rng: m.Rand("c09"), devs: deviations(), reported: map[string]bool{}}
 	defer func() {
 		if r.n != nil {
 			r.n.Stop()
